@@ -383,6 +383,56 @@ func wide48(m *big.Int, level int) [][48]byte {
 		}
 	}
 
+	// fold-boundary members (solved): a reduction of hi*2^256 + lo by folding computes S = lo + hi*c with
+	// c = 2^256 - m, folds the part of S above 2^256 again and finishes with conditional subtractions; each of these
+	// steps has a carry or comparison that matters only when S lies within a few multiples of c of a multiple of
+	// 2^256 (or of m) - a 2^-126 fraction of inputs for the group order. For a set of high parts hi (patterns and
+	// fixed dense values) lo is solved for so that S = k*2^256 +- j*c + d and S = q*m + d, j <= 4, |d| <= 2.
+	{
+		c := new(big.Int).Sub(ref.Two256(), m)
+		two256 := ref.Two256()
+		his := []*big.Int{big.NewInt(1), big.NewInt(2), new(big.Int).Lsh(big.NewInt(1), 64), new(big.Int).Lsh(big.NewInt(1), 127),
+			new(big.Int).Sub(new(big.Int).Lsh(big.NewInt(1), 128), big.NewInt(1)), new(big.Int).Sub(new(big.Int).Lsh(big.NewInt(1), 128), big.NewInt(2)),
+			new(big.Int).Sub(new(big.Int).Lsh(big.NewInt(1), 127), big.NewInt(1)), new(big.Int).Sub(new(big.Int).Lsh(big.NewInt(1), 64), big.NewInt(1))}
+
+		for _, f := range alpha.Fixed(12, "fold-boundary-hi") {
+			his = append(his, new(big.Int).Rsh(f, 128), new(big.Int).Rsh(f, 129), new(big.Int).Rsh(f, 160))
+		}
+
+		emit := func(hi, target *big.Int) {
+			lo := new(big.Int).Sub(target, new(big.Int).Mul(hi, c))
+			if lo.Sign() < 0 || lo.Cmp(two256) >= 0 {
+				return
+			}
+
+			var b [48]byte
+
+			new(big.Int).Add(new(big.Int).Lsh(hi, 256), lo).FillBytes(b[:])
+			out = append(out, b)
+		}
+
+		for _, hi := range his {
+			hc := new(big.Int).Mul(hi, c)
+			k0 := new(big.Int).Div(hc, two256).Int64()
+			q0 := new(big.Int).Div(hc, m).Int64()
+
+			for dk := int64(0); dk <= 2; dk++ {
+				for j := int64(-4); j <= 4; j++ {
+					for d := int64(-2); d <= 2; d++ {
+						t := new(big.Int).Mul(big.NewInt(k0+dk), two256)
+						t.Add(t, new(big.Int).Mul(big.NewInt(j), c))
+						emit(hi, t.Add(t, big.NewInt(d)))
+					}
+				}
+
+				for d := int64(-2); d <= 2; d++ {
+					t := new(big.Int).Mul(big.NewInt(q0+dk), m)
+					emit(hi, t.Add(t, big.NewInt(d)))
+				}
+			}
+		}
+	}
+
 	// around multiples of m, and the extremes
 	max := new(big.Int).Sub(new(big.Int).Lsh(big.NewInt(1), 384), big.NewInt(1))
 	kmax := new(big.Int).Div(max, m)
